@@ -33,7 +33,7 @@ def preprocess_table(repo):
         path = f.name
     try:
         r = subprocess.run(["g++", "-std=gnu++17", "-E", "-P", "-I", os.path.join(repo, "libfive/include"), path],
-                           stdout=subprocess.PIPE, stderr=subprocess.PIPE, text=True, timeout=60)
+                           stdout=subprocess.PIPE, stderr=subprocess.PIPE, text=True, timeout=900)
     finally:
         os.unlink(path)
     if r.returncode != 0:
